@@ -136,6 +136,21 @@ def oracle(seed, tier):
             nodes = [(p, base + rng.choice([-10e3, 0, 5e3, 15e3, 30e3])) for p in listed_corners + extra]
         entry = [[v, [p]] for (p, v) in nodes]
         rng.shuffle(entry)
+        # non-affine modes, every other world: an entry WITHOUT points somewhere in the list.  It sets the polygon corners (and only those) to its value at that place
+        # in the order; listed points before it keep their values unless they are corners, corners listed after it are replaced again.
+        pointless = None
+        if f is None and rng.random() < 0.5 and len(entry) >= 1:
+            pointless = (rng.randint(0, len(entry)), base + rng.choice([-5e3, 10e3, 25e3]))
+            entry.insert(pointless[0], [pointless[1]])
+            cur = dict((tuple(p), default) for p in corners)
+            for e in entry:
+                if len(e) == 1:
+                    for p in corners:
+                        cur[tuple(p)] = e[0]
+                else:
+                    for p in e[1]:
+                        cur[tuple(p)] = e[0]
+            nodes = [(list(k), v) for k, v in cur.items()]
         feat = {"model": kind, "name": "f", "coordinates": corners, "composition models": [{"model": "uniform", "compositions": [0]}]}
         feat[which] = entry
         other = "max depth" if which == "min depth" else "min depth"
